@@ -149,6 +149,17 @@ class Checker:
         finally:
             s.pop()
 
+    def model_of(self, pc):
+        """some model of the path condition (None if unsatisfiable / unknown)"""
+        s = self.osolver
+        s.push()
+        try:
+            for c in pc:
+                s.add(c)
+            return s.model() if s.check() == z3.sat else None
+        finally:
+            s.pop()
+
     def witness(self, name, reached=True):
         if reached:
             self.res.witnesses[name] = True
